@@ -2,14 +2,27 @@ import RomeaModel.Rate
 import RomeaModel.Generated.SrcC17
 
 /-!
-# Bridge C17: the window clamp of `RateMonitoring::initialize` AS TRANSLATED FROM TODAY'S SOURCE = the model's `windowOf`
+# Bridge C17: `RateMonitoring` AS TRANSLATED FROM TODAY'S SOURCE = the model (`RomeaModel/Rate.lean`)
 
 `RomeaModel/Generated/SrcC17.lean` is regenerated on every check run from `src/monitoring/RateMonitoring.cpp` (incl. the
-anonymous-namespace constants `MINIMAL_WINDOW_SIZE`, `MAXIMAL_WINDOW_SIZE`). `size_t` is translated to `Int`; the model works over
-`Nat` on the already truncated `2 * expectedRate`, hence the hypothesis that the truncation is non-negative (a negative value is
-undefined behaviour of the C++ conversion). Only `initialize` is bridged: `update` / `timeout` use `std::queue`, `std::chrono` and
-`std::atomic` and are not translated. Core Lean only.
+anonymous-namespace constants `MINIMAL_WINDOW_SIZE`, `MAXIMAL_WINDOW_SIZE`, the helpers `durationToNanoSecond` / `durationToSecond` of
+`time/Time.hpp` and `SharedVariable<Duration>::load/store`). Encoding: `size_t` / `long long` are `Int`; a
+`std::chrono::duration<long long, std::nano>` is its `count()` (an `Int`, nanoseconds; `a - b` of two durations of the same type is
+the difference of the counts, `Duration::zero()` is 0); `std::queue<long long>` is a `List Int` with the front at the head (`push` =
+append at the end, `front()` = `getD 0 0`, `pop()` = `drop 1`, `size()`, `empty()`); `std::atomic<double>` is its value (`load` /
+`store` = read / write — a SEQUENTIAL reading; the concurrency is C19's subject); the `lock_guard`s are skipped; the `assert` is
+compiled out (`-DNDEBUG`, as in the baseline build).
+
+The model keeps the rate symbolically (`none` = the stored `0.`, `some s` = `1e9 / (s / double(W))`); `rateVal` is that reading,
+generic in the scalar type (the driver's `rateVal` at `Float`). `update` is bridged for every scalar type with no hypothesis;
+`timeout` compares `count / 1e9 > 0.5` in `double` where the model compares nanoseconds: bridged under the hypothesis `TimeoutCmp`
+that the two comparisons agree (true over ℝ: `Bridge/C17Cor.lean`; at `double` true for |count| < 2^53 — an assumption of the plugin,
+not proved). `initialize`: `size_t` is translated to `Int`, the model works over `Nat` on the already truncated `2 * expectedRate`,
+hence the hypothesis that the truncation is non-negative (a negative value is undefined behaviour of the C++ conversion).
+Core Lean only.
 -/
+set_option linter.unusedSectionVars false
+
 namespace Romea.Bridge.C17
 open Romea Romea.Rate
 
@@ -26,5 +39,156 @@ theorem initialize_bridge {α : Type} [Mul α] [NatCast α] [Trunc α] (expected
   rw [h, constants_bridge.1, constants_bridge.2]
   simp only [Nat.min_def, Nat.max_def]
   split <;> split <;> split <;> split <;> omega
+
+section
+variable {α : Type} [Div α] [LT α] [DecidableLT α] [NatCast α] [IntCast α] [OfScientific α]
+
+/-- the `double` the symbolic rate of the model stands for: the stored `0.`, or `1000000000. / (periodsSum_ / double(windowSize_))` -/
+def rateVal (W : Nat) : Option Int → α
+  | none => ((0 : Nat) : α)
+  | some s => ((1000000000 : Nat) : α) / (((s : Int) : α) / ((((W : Nat) : Int) : Int) : α))
+
+/-- `RateMonitoring()`: (lastDuration_, lastPeriod_, periodsSum_, periods_, rate_, windowSize_) -/
+theorem ctor_bridge :
+    (Src.C17.RateMonitoring.RateMonitoring : Int × Int × Int × List Int × α × Int)
+      = ((Mon.init 0).last, 0, (Mon.init 0).sum, (Mon.init 0).q, rateVal (Mon.init 0).W (Mon.init 0).rate, (((Mon.init 0).W : Nat) : Int)) := rfl
+
+/-- `update(stamp)`: (returned rate, lastDuration_, lastPeriod_, periodsSum_, periods_, rate_) = the model's `Mon.update`, the returned
+    and the stored rate being the value of the model's symbolic rate -/
+theorem update_bridge (m : Mon) (t : Int) :
+    Src.C17.RateMonitoring.update t m.last m.sum m.q (rateVal m.W m.rate : α) (m.W : Int)
+      = let m' := m.update t
+        ((rateVal m'.W m'.rate : α), m'.last, t - m.last, m'.sum, m'.q, (rateVal m'.W m'.rate : α)) := by
+  simp only [Src.C17.RateMonitoring.update, Src.C17.SharedVariable.load, Src.C17.SharedVariable.store,
+    Src.C17.durationToNanoSecond, Mon.update]
+  have key : ((((m.q ++ [t - m.last]).length : Nat) : Int) = (m.W : Int) + 1) ↔ (m.q ++ [t - m.last]).length = m.W + 1 := by omega
+  simp only [key]
+  by_cases h : (m.q ++ [t - m.last]).length = m.W + 1
+  · simp only [if_pos h, rateVal, List.drop_one, List.headD_eq_head?_getD, List.getD_eq_getElem?_getD, List.head?_eq_getElem?]
+  · simp only [if_neg h]
+
+/-- the `double` comparison of `timeout` agrees with the model's comparison of nanoseconds -/
+def TimeoutCmp (α : Type) [Div α] [LT α] [NatCast α] [IntCast α] [OfScientific α] : Prop :=
+  ∀ c : Int, ((OfScientific.ofScientific 5 true 1 : α) < ((c : Int) : α) / ((1000000000 : Nat) : α)) ↔ Generated.C17.timeoutNs < c
+
+/-- `timeout(stamp)`: (returned flag, rate_) = the model's `Mon.timeout` -/
+theorem timeout_bridge (hcmp : TimeoutCmp α) (m : Mon) (t : Int) :
+    Src.C17.RateMonitoring.timeout t m.last m.q (rateVal m.W m.rate : α)
+      = ((m.timeout t).2, (rateVal (m.timeout t).1.W (m.timeout t).1.rate : α)) := by
+  simp only [Src.C17.RateMonitoring.timeout, Src.C17.SharedVariable.load, Src.C17.durationToSecond, Mon.timeout, hcmp (t - m.last)]
+  have hq : (¬ (m.q.length = 0)) ↔ m.q ≠ [] := by
+    cases m.q <;> simp
+  by_cases h : m.q ≠ [] ∧ t - m.last > Generated.C17.timeoutNs
+  · have h' : (¬ (m.q.length = 0)) ∧ Generated.C17.timeoutNs < t - m.last := ⟨hq.mpr h.1, h.2⟩
+    rw [if_pos h', if_pos h]
+    rfl
+  · have h' : ¬ ((¬ (m.q.length = 0)) ∧ Generated.C17.timeoutNs < t - m.last) := fun hh => h ⟨hq.mp hh.1, hh.2⟩
+    rw [if_neg h', if_neg h]
+
+/-- `getRate()` returns the stored member -/
+theorem getRate_bridge (x : α) : Src.C17.RateMonitoring.getRate x = x := rfl
+
+end
+
+/-! ### `CheckupRate<CheckupEqualTo<double>>` / `CheckupRate<CheckupGreaterThan<double>>`
+
+`evaluate(stamp)` = translated `RateMonitoring::update`, then the translated check-up `evaluate` on the returned rate (faithful down to
+`setDiagnostic_` / `setValue_` / `getStatus_`, as in `Bridge/C18.lean`: the single diagnostic is `report_.diagnostics.front()`, the
+single info entry `report_.info.begin()`, `toStringInfoValue` an uninterpreted parameter `tsi`); `heartBeatCallback(stamp)` =
+translated `RateMonitoring::timeout`, then `Checkup::timeout()` when it fired. The model (`CR.stamp`, `CR.heartbeat`) abstracts
+messages to classes; `ending` is the text each class appends to the check-up's name. -/
+
+/-- the text appended to the check-up's name, per message class of the model (`initial`: the constructor's own text, never written
+    by `evaluate` / `timeout`) -/
+def ending : Checkup.Msg → String
+  | .initial => ""
+  | .tooLow => " is too low."
+  | .tooHigh => " is too high."
+  | .isOK => " is OK."
+  | .uncertain => " is uncertain."
+  | .high => " is high."
+  | .timeout => " timeout."
+
+/-- the underlying value of the enum `DiagnosticStatus` -/
+def code (s : Checkup.Status) : Int := (s.toNat : Int)
+
+/-- the info string the C++ stores for the model's `info` -/
+def infoString {α : Type} (tsi : α → String) : Option α → String
+  | none => ""
+  | some v => tsi v
+
+section
+variable {α : Type} [Add α] [Sub α] [Div α] [LT α] [DecidableLT α] [NatCast α] [IntCast α] [OfScientific α]
+
+/-- what the translated `CheckupRate::evaluate` returns according to the model's `CR.stamp`: (returned status, stored message, stored
+    status, stored info, then the monitor's lastDuration_, lastPeriod_, periodsSum_, periods_, rate_) -/
+def shownStamp (tsi : α → String) (name : String) (c : CR α) (t : Int) :
+    Int × String × Int × String × Int × Int × Int × List Int × α :=
+  let r := c.stamp rateVal t
+  (code r.2, name ++ ending r.1.chk.msg, code r.1.chk.status, infoString tsi r.1.chk.info,
+   r.1.mon.last, t - c.mon.last, r.1.mon.sum, r.1.mon.q, rateVal r.1.mon.W r.1.mon.rate)
+
+/-- `CheckupRate<CheckupEqualTo<double>>::evaluate(stamp)` = the model's `CR.stamp` -/
+theorem checkupRate_evaluate_eq_bridge (tsi : α → String) (name : String) (c : CR α) (hk : c.chk.kind = .equalTo) (t : Int) :
+    Src.C17.CheckupRate.evaluate_eq c.chk.e name c.chk.t c.mon.last c.mon.sum c.mon.q (rateVal c.mon.W c.mon.rate : α) (c.mon.W : Int) t tsi
+      = shownStamp tsi name c t := by
+  unfold Src.C17.CheckupRate.evaluate_eq
+  rw [update_bridge c.mon t]
+  simp only [Src.C17.CheckupEqualTo.evaluate, Src.C17.Checkup.setDiagnostic_, Src.C17.Checkup.getStatus_, Src.C17.Checkup.setValue_,
+    shownStamp, CR.stamp, Checkup.evaluate, Checkup.classify, hk]
+  by_cases h1 : (rateVal (c.mon.update t).W (c.mon.update t).rate : α) < c.chk.t - c.chk.e
+  · simp only [h1, if_true]; rfl
+  · by_cases h2 : c.chk.t + c.chk.e < (rateVal (c.mon.update t).W (c.mon.update t).rate : α)
+    · simp only [h1, h2, if_true, if_false, GT.gt]; rfl
+    · simp only [h1, h2, if_false, GT.gt]; rfl
+
+/-- `CheckupRate<CheckupGreaterThan<double>>::evaluate(stamp)` = the model's `CR.stamp` -/
+theorem checkupRate_evaluate_gt_bridge (tsi : α → String) (name : String) (c : CR α) (hk : c.chk.kind = .greaterThan) (t : Int) :
+    Src.C17.CheckupRate.evaluate_gt c.chk.e name c.chk.t c.mon.last c.mon.sum c.mon.q (rateVal c.mon.W c.mon.rate : α) (c.mon.W : Int) t tsi
+      = shownStamp tsi name c t := by
+  unfold Src.C17.CheckupRate.evaluate_gt
+  rw [update_bridge c.mon t]
+  simp only [Src.C17.CheckupGreaterThan.evaluate, Src.C17.Checkup.setDiagnostic_, Src.C17.Checkup.getStatus_, Src.C17.Checkup.setValue_,
+    shownStamp, CR.stamp, Checkup.evaluate, Checkup.classify, hk]
+  by_cases h1 : c.chk.t - c.chk.e < (rateVal (c.mon.update t).W (c.mon.update t).rate : α)
+  · simp only [h1, if_true, GT.gt]; rfl
+  · simp only [h1, if_false, GT.gt]; rfl
+
+/-- what the translated `heartBeatCallback` returns according to the model's `CR.heartbeat`: (returned flag, stored message, stored
+    status, stored info, rate_); `msg0`, `st0`, `info0` are the strings / status stored before the call (kept when no timeout fires) -/
+def shownHeartbeat (msg0 : String) (st0 : Int) (name info0 : String) (c : CR α) (t : Int) : Bool × String × Int × String × α :=
+  let r := c.heartbeat t
+  (r.2, if r.2 = true then msg0 else name ++ ending r.1.chk.msg, if r.2 = true then st0 else code r.1.chk.status,
+   if r.2 = true then info0 else "", rateVal r.1.mon.W r.1.mon.rate)
+
+private theorem heartbeat_shown (msg0 : String) (st0 : Int) (name info0 : String) (c : CR α) (t : Int)
+    (x : Bool × α) (hx : x = ((c.mon.timeout t).2, (rateVal (c.mon.timeout t).1.W (c.mon.timeout t).1.rate : α))) :
+    (if x.1 = true then
+        (false, (Src.C17.Checkup.timeout name).1, (Src.C17.Checkup.timeout name).2.1, (Src.C17.Checkup.timeout name).2.2, x.2)
+      else (true, msg0, st0, info0, x.2)) = shownHeartbeat msg0 st0 name info0 c t := by
+  subst hx
+  unfold shownHeartbeat CR.heartbeat
+  by_cases h : (c.mon.timeout t).2 = true
+  · simp only [h, if_true]
+    rfl
+  · have h' : (c.mon.timeout t).2 = false := by simpa using h
+    simp only [h', if_false, Bool.false_eq_true]
+    rfl
+
+/-- `CheckupRate<CheckupEqualTo<double>>::heartBeatCallback(stamp)` = the model's `CR.heartbeat` -/
+theorem checkupRate_heartbeat_eq_bridge (hcmp : TimeoutCmp α) (msg0 : String) (st0 : Int) (name info0 : String) (c : CR α) (t : Int) :
+    Src.C17.CheckupRate.heartBeatCallback_eq msg0 st0 name info0 c.mon.last c.mon.q (rateVal c.mon.W c.mon.rate : α) t
+      = shownHeartbeat msg0 st0 name info0 c t := by
+  unfold Src.C17.CheckupRate.heartBeatCallback_eq
+  exact heartbeat_shown msg0 st0 name info0 c t _ (timeout_bridge hcmp c.mon t)
+
+/-- `CheckupRate<CheckupGreaterThan<double>>::heartBeatCallback(stamp)` = the model's `CR.heartbeat` -/
+theorem checkupRate_heartbeat_gt_bridge (hcmp : TimeoutCmp α) (msg0 : String) (st0 : Int) (name info0 : String) (c : CR α) (t : Int) :
+    Src.C17.CheckupRate.heartBeatCallback_gt msg0 st0 name info0 c.mon.last c.mon.q (rateVal c.mon.W c.mon.rate : α) t
+      = shownHeartbeat msg0 st0 name info0 c t := by
+  unfold Src.C17.CheckupRate.heartBeatCallback_gt
+  exact heartbeat_shown msg0 st0 name info0 c t _ (timeout_bridge hcmp c.mon t)
+
+end
 
 end Romea.Bridge.C17
